@@ -84,15 +84,29 @@ def dot (w fp : List K) : K := (List.zipWith (fun a b => a * b) w fp).sum
 /-- `linear_interp_with_linear_extrap(x, xp, fp)` -/
 def linearExtrap (xp fp : List K) (x : K) : K := dot (linWeights xp x) fp
 
-/-- weights of `_dot_interp`: one-hot on the first / last node beyond the ends -/
+/-- weights of `_dot_interp`: one-hot on the first node at and below it
+ (`jnp.where(x <= xp[0], i == 0, weights)`), then one-hot on the last node above it
+ (`jnp.where(x > xp[-1], i == (n - 1), weights)`) -/
 def dotWeights (xp : List K) (x : K) : List K :=
+  let n := xp.length
+  let w := linWeights xp x
+  let w := if ¬ xp.headD 0 < x then (List.range n).map (fun i => ind (decide (i = 0))) else w
+  if xp.getLastD 0 < x then (List.range n).map (fun i => ind (decide (i + 1 = n))) else w
+
+/-- `_dot_interp(x, xp, fp)`: the accelerator path of `interp` -/
+def dotInterp (xp fp : List K) (x : K) : K := dot (dotWeights xp x) fp
+
+/-- weights of `_dot_interp` BEFORE the repair of finding `dot-interp-one-node`: the first override
+ was `jnp.where(x < xp[0], i == 0, weights)`, which with one node leaves the all-zero weights of
+ `linWeights` in place when the query equals the node.  Kept as the regression witness. -/
+def dotWeightsOld (xp : List K) (x : K) : List K :=
   let n := xp.length
   let w := linWeights xp x
   let w := if x < xp.headD 0 then (List.range n).map (fun i => ind (decide (i = 0))) else w
   if xp.getLastD 0 < x then (List.range n).map (fun i => ind (decide (i + 1 = n))) else w
 
-/-- `_dot_interp(x, xp, fp)`: the accelerator path of `interp` -/
-def dotInterp (xp fp : List K) (x : K) : K := dot (dotWeights xp x) fp
+/-- `_dot_interp` before the repair (not what the code does any more) -/
+def dotInterpOld (xp fp : List K) (x : K) : K := dot (dotWeightsOld xp x) fp
 
 /-- `_extrapolate_left`; `y[1]` of a one-element array is clamped to `y[0]` by JAX -/
 def extrapLeft (y : List K) : List K :=
@@ -123,6 +137,12 @@ def dotChecked (xp fp xs : List K) : Except Err (List K) :=
   if xp.length = 0 then .error .index                -- xp[0]
   else if xp.length ≠ fp.length then .error .type    -- jnp.dot: contracting dimensions differ
   else .ok (xs.map (dotInterp xp fp))
+
+/-- the pre-repair `_dot_interp` (replayed against the model only) -/
+def dotOldChecked (xp fp xs : List K) : Except Err (List K) :=
+  if xp.length = 0 then .error .index
+  else if xp.length ≠ fp.length then .error .type
+  else .ok (xs.map (dotInterpOld xp fp))
 
 def linextChecked (xp fp xs : List K) : Except Err (List K) :=
   if xp.length ≠ fp.length then .error .type
